@@ -241,6 +241,7 @@ class Executor:
         """Return a python bool for a truth value.  Symbolic conditions are resolved by the path's decision
         list (re-execution based exploration, see Driver.explore): recorded decisions are replayed without
         solver calls; a fresh choice takes True first and queues the False alternative."""
+        cond = self.obj_truth(cond, st)
         c = to_bool(cond)
         if isinstance(c, bool):
             return c
@@ -266,6 +267,15 @@ class Executor:
             st.dec_pos += 1
         st.assume(c if d else z3.Not(c))
         return d
+
+    def obj_truth(self, cond, st):
+        """Truthiness of repo objects goes through their __bool__ / __len__ (real code, inlined)."""
+        if isinstance(cond, Obj) and cond.cls.startswith("agilerl"):
+            for dn in ("__bool__", "__len__"):
+                r = front.find_method(cond.cls, dn)
+                if r is not None:
+                    return self.call_function(r[0], r[1], r[2], [cond], {}, st, self.top_frame)
+        return cond
 
     # ------------------------------------------------------------------ name resolution
     def resolve_global(self, fr, name):
@@ -370,7 +380,7 @@ class Executor:
     def ev_UnaryOp(self, node, st, fr):
         v = self.ev(node.operand, st, fr)
         if isinstance(node.op, ast.Not):
-            b = to_bool(v)
+            b = to_bool(self.obj_truth(v, st))
             return (not b) if isinstance(b, bool) else z3.Not(b)
         if isinstance(node.op, ast.USub):
             return -v
@@ -506,8 +516,10 @@ class Executor:
             return a.compare(self, st, op, b, False)
         if hasattr(b, "compare"):
             return b.compare(self, st, op, a, True)
-        if isinstance(a, Opt) or isinstance(b, Opt):
-            raise Undecided("comparison on optional value")
+        if isinstance(a, Opt):
+            a = self.unwrap_opt(a, st, "comparison")
+        if isinstance(b, Opt):
+            b = self.unwrap_opt(b, st, "comparison")
         if not is_sym(a) and not is_sym(b):
             if isinstance(a, (Obj, Seq)) or isinstance(b, (Obj, Seq)):
                 raise Undecided("comparison of objects")
@@ -586,8 +598,12 @@ class Executor:
             return Opaque("fmt")
         if isinstance(a, (Opaque, ModRef)) or isinstance(b, (Opaque, ModRef)):
             return Opaque("binop")
-        if isinstance(a, Opt) or isinstance(b, Opt) or a is None or b is None:
-            raise Undecided("arithmetic on optional/None")
+        if isinstance(a, Opt):
+            a = self.unwrap_opt(a, st, "arithmetic")
+        if isinstance(b, Opt):
+            b = self.unwrap_opt(b, st, "arithmetic")
+        if a is None or b is None:
+            raise PyRaise("TypeError", "arithmetic on None")
         sym = is_sym(a) or is_sym(b)
         if isinstance(a, z3.BoolRef):
             a = z3.If(a, 1, 0)
@@ -790,7 +806,7 @@ class Executor:
         if self.feasible(st, o.isnone):
             if self.decide(st, o.isnone):
                 raise PyRaise("TypeError", f"None in {what}")
-        return o.val
+        return o.val if not isinstance(o.val, Opt) else self.unwrap_opt(o.val, st, what)
 
     def seq_slice(self, s, sl, st):
         if sl.step is not None:
@@ -1162,6 +1178,10 @@ class SuperV:
         if r is None:
             if name == "__init__":
                 return Fn(model=lambda ex, st, a, k: None, name="object.__init__")
+            if name == "__setattr__":
+                def obj_setattr(ex, st, a, k):
+                    self.obj.fields[a[0]] = a[1]
+                return Fn(model=obj_setattr, name="object.__setattr__")
             raise Undecided(f"super().{name} not found")
         owner, mod, fn = r
         return BoundMethod(self.obj, owner, mod, fn)
